@@ -902,11 +902,24 @@ func (in *Interp) eval(fr *frame, e ast.Expr, st *State) *Term {
 		if v.Op == "ref" {
 			return v.Args[0]
 		}
+		if v.Op == "addr" {
+			return in.derefAddr(v, st)
+		}
 		return &Term{Op: "deref", Args: []*Term{v}}
 	case *ast.UnaryExpr:
 		switch e.Op {
 		case token.AND:
 			v := in.eval(fr, e.X, st)
+			// a pointer to an element or field of something reachable from the
+			// heap is resolved when it is dereferenced, against the contents the
+			// owner has then (an in-place append moves other elements under it)
+			switch x := ast.Unparen(e.X).(type) {
+			case *ast.IndexExpr, *ast.SelectorExpr:
+				if in.rootedInHeap(fr, x, st) {
+					snap := st.clone()
+					return &Term{Op: "addr", Args: []*Term{v}, Aux: &addrVal{fr: fr, expr: e.X, env: snap.env}}
+				}
+			}
 			return &Term{Op: "ref", Args: []*Term{v}}
 		case token.NOT:
 			return T("not", "", in.eval(fr, e.X, st))
@@ -1018,6 +1031,9 @@ func (in *Interp) fieldOf(base *Term, sel *types.Selection, st *State) *Term {
 		return &Term{Op: "fld", S: fv.Name(), Args: []*Term{base}, Hint: fv.Name(), Obj: fv}
 	}
 	id := fieldID(fv, sel.Recv())
+	if base.Op == "addr" {
+		base = in.derefAddr(base, st)
+	}
 	b := base
 	if b.Op == "ref" {
 		b = b.Args[0]
@@ -1692,4 +1708,49 @@ func (in *Interp) closureTerm(fr *frame, e *ast.FuncLit, st *State) *Term {
 		return &Term{Op: "closure", S: fmt.Sprintf("opaque%d", in.nclos), Aux: cl}
 	}
 	return &Term{Op: "closure", Args: []*Term{body}, Aux: cl}
+}
+
+type addrVal struct {
+	fr   *frame
+	expr ast.Expr
+	env  map[types.Object]*Term
+}
+
+// rootedInHeap reports whether the addressed expression is an element/field of
+// something that is not a plain local value (a receiver/parameter field, a map
+// or slice reached through one).
+func (in *Interp) rootedInHeap(fr *frame, e ast.Expr, st *State) bool {
+	for {
+		switch x := ast.Unparen(e).(type) {
+		case *ast.IndexExpr:
+			e = x.X
+		case *ast.SelectorExpr:
+			if sel := fr.info.Selections[x]; sel != nil && sel.Kind() == types.FieldVal {
+				if id, ok := ast.Unparen(x.X).(*ast.Ident); ok {
+					if obj := fr.info.Uses[id]; obj != nil {
+						if v, ok := st.env[obj]; ok && (v.Op == "recv" || v.Op == "param") {
+							return true
+						}
+					}
+				}
+				e = x.X
+				continue
+			}
+			return false
+		default:
+			return false
+		}
+	}
+}
+
+// derefAddr re-evaluates the addressed expression with the local variables it
+// was taken with and the heap as it is now.
+func (in *Interp) derefAddr(a *Term, st *State) *Term {
+	av, ok := a.Aux.(*addrVal)
+	if !ok {
+		return a.Args[0]
+	}
+	tmp := st.clone()
+	tmp.env = av.env
+	return in.eval(av.fr, av.expr, tmp)
 }
